@@ -29,7 +29,7 @@ def _gen_parse(rng, tier, variant):
     import warnings
     warnings.simplefilter('ignore')
     for _ in range(60 if tier == 'quick' else 800):
-        d = gen_definition(rng)
+        d = gen_definition(rng, nested_criteria=True)
         for _ in range(12):
             yield {'def': d, 'pkt': gen_packet(rng, d).hex()}
         # packets cut to the consumed length (zero-width trailing entries, nothing left after the last field)
